@@ -276,7 +276,8 @@ pub fn add_tail_pair(r: &mut Rng) -> (u128, u128) {
 }
 
 pub fn mul_pair(r: &mut Rng) -> (u128, u128) {
-    match r.below(6) {
+    match r.below(8) {
+        6 | 7 => { let (x, y, _) = fma_subnormal_product_triple(r); (x, y) }
         0 => { // products that end exactly on a tie
             let c1 = coeff(r, 34) | 1;
             let c2 = *r.pick(&[5u128, 15, 25, 35, 45, 50, 500, 5000, 125, 625, 75]);
@@ -338,8 +339,26 @@ pub fn sqrt_operand(r: &mut Rng) -> u128 {
     }
 }
 
+/// fma triples whose product has more than 34 digits and lies in the subnormal range (so digits are chopped twice:
+/// to 34 digits and then to the subnormal precision), with an addend below the last kept digit.
+pub fn fma_subnormal_product_triple(r: &mut Rng) -> (u128, u128, u128) {
+    let q1 = qdigits(r); let q2 = qdigits(r);
+    let (c1, c2) = (coeff(r, q1), coeff(r, q2));
+    let q4 = (q1 + q2) as i32;                         // product digits (or one less)
+    // choose the product's exponent so that its most significant digit sits k digits above 10^emin, k in 1..=40
+    let k = 1 + r.below(40) as i32;
+    let pe = EMIN + k - q4;                            // e1 + e2
+    let e1 = (pe / 2).clamp(EMIN, EMAX);
+    let e2 = (pe - e1).clamp(EMIN, EMAX);
+    // addend: a few digits at or just above emin, or a zero
+    let z = match r.below(4) { 0 => zero(r), 1 => enc(r.chance(1, 2), coeff_upto(r, 8), EMIN), 2 => enc(r.chance(1, 2), coeff_upto(r, 34), EMIN + r.below(3) as i32),
+                               _ => enc(r.chance(1, 2), coeff_upto(r, 12), EMIN + r.below(20) as i32) };
+    (enc(r.chance(1, 2), c1, e1), enc(r.chance(1, 2), c2, e2), z)
+}
+
 pub fn fma_triple(r: &mut Rng) -> (u128, u128, u128) {
-    match r.below(13) {
+    match r.below(15) {
+        13 | 14 => fma_subnormal_product_triple(r),
         10 | 11 | 12 => fma_tail_triple(r),
         0 => (operand(r), operand(r), operand(r)),
         1 => { let (x, y) = mul_pair(r); (x, y, zero(r)) }
